@@ -1,16 +1,16 @@
 SPEC = {
     "claimed": True,
     "gen": [],
-    "theorems": ['C04_all_histories6', 'C04_all_histories7', 'C04_step6', 'C04_step7', 'C04_refusal6', 'C04_refusal7', 'C04_nonvacuous'],
+    "theorems": ['C03_inert6', 'C03_garbage6', 'C03_inert7', 'C03_inert7_connless', 'C03_exception7', 'C03_tokens_not_reserved6', 'C03_tokens_not_reserved7', 'C03_nonvacuous'],
     "allowed_axioms": [],
     "extract": {
         "LibTw2.Model.Conn6": ["step", "needs_tick", "conn6_new"],
         "LibTw2.Model.Conn7": ["step7", "needs_tick7", "conn7_new"],
     },
-    "components": [{"bin": "conn", "driver": "drv_conn", "args": ["6,6nt,7", "sender,link"], "timeout": {"quick": 900, "thorough": 3000}}],
+    "components": [{"bin": "conn", "driver": "drv_conn", "args": ["6,7", "hostile"], "timeout": {"quick": 900, "thorough": 3000}}],
     "release": False,
     "trusted_base": ["Model/ConnCore.v, Conn6.v, Conn7.v are hand-written from net/src/connection.rs / connection7.rs; datagrams are abstract packet values with structured chunks, their encoded size is tracked in the model; the byte level is Props/C05-C06",
                      "the correspondence feeds the model the packet value the REAL reader returns for each datagram and compares every emitted datagram (parsed by the real reader), event, warning, result, needs_tick and the complete state fingerprint (hook Connection::verif_fingerprint) after every label"],
-    "assumptions": ["valid_op6 / valid_op7: the API contract read off the code's own asserts (send/flush/connless only online, connect only unconnected, disconnect reason NUL-free and at most 127 bytes, feed of what the reader can return)", "the send callback never fails"],
-    "explanation": 'for ALL valid histories no call panics or fails to return and every emitted datagram is well-formed (dgram_ok: <= 1400 bytes, chunk count = chunks carried <= 255, sizes within the header fields); refused sends leave the connection unchanged',
+    "assumptions": ["the datagram is what the packet reader returns (C05/C06); a reader error is the label feed-garbage"],
+    "explanation": 'for every state with a fixed token and every connection-oriented datagram value without exactly that token, feed returns the identical state, environment, no event and no datagram (0.7: except the explicit unauthenticated token request in PendingConnect, which is answered without state change)',
 }
